@@ -149,7 +149,15 @@ def check_huge(case, rec):
         if case["poolsize"] is not None:
             cube.poolsize = case["poolsize"]
         vals, valid = cube.count(return_missing_as=(0, False))
+        asnan = numpy.asarray(cube.count())  # the default report format: NaN in place (a float region)
     vals, valid = numpy.asarray(vals), numpy.asarray(valid)
+    if asnan.shape != vals.shape or not numpy.array_equal(numpy.isnan(asnan), ~valid) or not numpy.array_equal(
+            asnan[valid], vals[valid].astype(float)):
+        bad = numpy.argwhere(~(numpy.isnan(asnan) == ~valid) | (valid & (numpy.nan_to_num(asnan) != vals)))
+        bad = tuple(int(x) for x in bad[0]) if len(bad) and asnan.shape == vals.shape else None
+        raise Violation("count cube over %d rows: the NaN-format result differs from the (values, validity) format%s" % (
+            N, "" if bad is None else " at %s: %r versus %r" % (bad, float(asnan[bad]), int(vals[bad]))),
+            sig="ccube.count (huge sparse): report formats disagree")
     tails = [tuple(d["tail"]) for d in case["dims"]]
     scaffold = tuple(e for t in tails for e in t)
     if vals.shape != scaffold + (4,) * len(idxs):
